@@ -3,7 +3,7 @@
 # Applies the patch to a scratch copy of /repo (under /var/tmp), runs the quick checks of the named properties against
 # the copy (VERIF_REPO) and reports whether each check raised a VIOLATION. The copy and its build output are removed.
 set -u
-PATCH="$1"; shift
+PATCH="$(readlink -f "$1")"; shift
 NAME=$(basename "$PATCH" .patch); NAME=$(basename "$NAME" .diff)
 SCRATCH="/var/tmp/mutant-$NAME-$$"
 rm -rf "$SCRATCH"; mkdir -p "$SCRATCH"
